@@ -22,7 +22,8 @@ def run(tier, rep, work):
     if not quick:
         storefam.run_store(rep, work, d, exe, "C08", tier, "memcap3/compact4", 3, n, memcap=3, compactn=4, seed=3, steps=40)
         storefam.run_store(rep, work, d, exe, "C08", tier, "vector-only templates", 4, n, memcap=1, compactn=2, comps="v", seed=4)
-    rep.cov["exhaustive"] = True
+    rep.cov["exhaustive"] = False
+    rep.cov["exhaustive_scope"] = "exhaustive on the model (all interleavings within the stated constants); executions of the real store are seeded samples"
     rep.cov["rule"] = ("(A) TLC explores every interleaving of a sequential client (add, remove, rotate, flush, evict, trigger compaction, search split into list / per-segment steps, close, reopen) with the "
                        "background flusher and compactor micro-steps and one crash, for the intended design and for the code's deviation flags; (B/C) seeded sequential histories on the real store "
                        "(1-3 document memtables, compaction thresholds 2-5, fresh templates on every open) in which every background flush and compaction is stepped hook by hook with searches, adds, removes, "
